@@ -41,10 +41,14 @@ def rich_state(P, A):
         return B.timing_block(dur=d) if timed else None
     meta = E('mosExternalMetadata', T('mosScope', 'PLAYLIST'), T('mosSchema', 'sch.ro'),
              E('mosPayload', T('Owner', c1), E('nested', T('leaf', 'x'), k=c1)))
+    untimed = P.get('untimed', ())
     if level == 'story':
         stories = []
-        for sid in ids:
-            stories.append(B.story(sid, slug='ss', timing=tb('10'),
+        if P.get('blank_first'):
+            # a story whose storyID tag is blank (reachable: roStoryAppend of such a story)
+            stories.append(B.story(None, slug='blank', timing=tb('5'), body=[T('p', c0)]))
+        for i, sid in enumerate(ids):
+            stories.append(B.story(sid, slug='ss', timing=None if i in untimed else tb('10'),
                                    body=[T('p', c0), B.item('I1', slug='one', obj_id='o1'), T('p', None)]))
         root = B.ro_tree(stories, lead=3, gap=P.get('gap', 0), trail=P.get('trail', 1), edstart=None)
         rc = root.find('roCreate')
@@ -52,13 +56,15 @@ def rich_state(P, A):
         return B.wrap(root, B.mt.RunningOrder), ids, None, None
     addr_id, other_id = A['p0'], A['p1']
     body = []
+    if P.get('blank_first'):
+        body.append(B.item(None, slug='blank'))
     for i, iid in enumerate(ids):
         body.append(B.item(iid, slug='is', obj_id=c0 if i == 0 else 'o'))
         if i == 0:
             body.append(T('p', c0))
     body.append(T('p', '(tail)'))
-    addressed = B.story(addr_id, slug='ss', timing=tb('10'), body=body)
-    other = B.story(other_id, slug='so', timing=tb('20'),
+    addressed = B.story(addr_id, slug='ss', timing=None if 0 in untimed else tb('10'), body=body)
+    other = B.story(other_id, slug='so', timing=None if 1 in untimed else tb('20'),
                     body=[B.item(i, slug='other', obj_id=c0) for i in reversed(ids)] + [T('p', c0)])
     order = [addressed, other] if P.get('w', 0) == 0 else [other, addressed]
     root = B.ro_tree(order, lead=3, trail=1)
@@ -128,6 +134,9 @@ def plan(P, A, ids):
                 pl.eff_new.append(A['n%d' % j])
             elif kind == 'dup':
                 pl.new.append(ids[A['d']])
+                pl.dups += 1
+            elif kind == 'dup2':
+                pl.new.append(ids[A['d2']])
                 pl.dups += 1
     return pl
 
@@ -369,11 +378,14 @@ def slot_space(op, mode):
     if has_new:
         nks = [['fresh'], ['fresh', 'fresh']]
         if level == 'story' and k == 'Insert':
-            nks += [['dup'], ['dup', 'fresh'], ['fresh', 'dup']]
+            nks += [['dup'], ['dup', 'fresh'], ['fresh', 'dup'], ['dup', 'dup2'], ['dup', 'fresh', 'dup2']]
+        if level == 'story' and k == 'Replace' and mode != 'report':
+            # a replacement story that carries the ID of another story of the running order
+            nks += [['dup'], ['fresh', 'dup'], ['fresh', 'fresh', 'dup']]
     return story_ks, tks, sks, nks
 
 
-def make_cells(pid, prop, tier, ops=None, N=3, mode=None, thin=None):
+def make_cells(pid, prop, tier, ops=None, N=3, mode=None, thin=None, extra=None, suffix=''):
     from .cells import Cell, distinct, str_pre
     mode = mode or prop
     out = []
@@ -394,6 +406,8 @@ def make_cells(pid, prop, tier, ops=None, N=3, mode=None, thin=None):
                                 or (nk and len(nk) > 1)):
                             continue   # unresolvable story: other slots stay plain
                         P = {'op': op, 'N': N, 'prop': prop}
+                        if extra:
+                            P.update(extra)
                         sym = [('s%d' % i, 'str') for i in range(N)]
                         strs = ['s%d' % i for i in range(N)]
                         pre = []
@@ -431,6 +445,12 @@ def make_cells(pid, prop, tier, ops=None, N=3, mode=None, thin=None):
                             if 'dup' in nk:
                                 sym.append(('d', 'int'))
                                 pre.append('0 <= d < %d' % N)
+                                if has_t and tk == 'existing' and kind_of(op) == 'Replace':
+                                    pre.append('d != t')
+                            if 'dup2' in nk:
+                                sym.append(('d2', 'int'))
+                                pre.append('0 <= d2 < %d' % N)
+                                pre.append('d2 != d')
                         if need_x:
                             sym.append(('x', 'str'))
                             strs.append('x')
@@ -447,6 +467,8 @@ def make_cells(pid, prop, tier, ops=None, N=3, mode=None, thin=None):
                             parts.append('s-' + '+'.join(sk))
                         if nk:
                             parts.append('n-' + '+'.join(nk))
+                        if suffix:
+                            parts.append(suffix)
                         cost = N ** (sum(1 for n, t in sym if t == 'int'))
                         out.append(Cell(pid=pid, cid='/'.join(parts), harness='h_merge:full_cell', params=P,
                                         sym=sym, pre=pre, stubs=('hash',), timeout=T_, cost=cost))
